@@ -665,8 +665,19 @@ func writeExpression(ctx *exprContext, sb *strings.Builder, x parser.Expr) error
 		default:
 			fmt.Fprintf(sb, "/* unhandled %s unary op */ ", x.Op)
 		}
-		if err := writeExpressionMaybeParen(ctx, sb, x.X); err != nil {
+		// The operand's SQL may itself start with a sign
+		// (a nested unary expression or a substituted let binding/parameter).
+		// Parenthesize it so that we never emit "--", which starts a SQL comment.
+		operand := new(strings.Builder)
+		if err := writeExpressionMaybeParen(ctx, operand, x.X); err != nil {
 			return err
+		}
+		if s := operand.String(); strings.HasPrefix(s, "-") || strings.HasPrefix(s, "+") {
+			sb.WriteString("(")
+			sb.WriteString(s)
+			sb.WriteString(")")
+		} else {
+			sb.WriteString(s)
 		}
 	case *parser.BinaryExpr:
 		switch x.Op {
